@@ -24,3 +24,57 @@ Check C12_b_refuted_before_fix : exists prog filters raw appf imgc fuel calls,
 Check C12_split_table : forall f, In f filter_codes -> is_image_filter f = spec_is_image f.
 Check C12_codecs_table : forall f, In f filter_codes -> memN f cache_image_codecs = memN f [5; 6; 7; 8; 9].
 Check (eq_refl : C12_full_statement = full_statement).
+Check C12_typed_get_any_history :
+  forall (prog : tytag -> ref -> comp) (filters : ref -> list filt) (raw : ref -> outcome)
+         (appf : filt -> val -> outcome) (imgc : ref -> filt -> val -> outcome)
+         (rank : ref -> nat) (oc sc : bool) (fuel : nat) (history : list call) (ty : tytag) (r : ref),
+    acyclic prog rank -> fuel_ok rank fuel history -> (rank r < fuel)%nat ->
+    let st := final_state prog filters raw appf imgc oc sc fuel history init in
+    fst (get (cfg_fixed oc sc) prog fuel [] ty r st) = D prog rank ty r /\
+    fst (get no_cache prog fuel [] ty r init) = D prog rank ty r.
+Check C12_error_entries_irrelevant :
+  forall (prog : tytag -> ref -> comp) (filters : ref -> list filt) (raw : ref -> outcome)
+         (appf : filt -> val -> outcome) (imgc : ref -> filt -> val -> outcome)
+         (rank : ref -> nat) (oc sc : bool) (fuel : nat) (history : list call) (ty : tytag) (r r0 : ref) (k : N),
+    acyclic prog rank -> fuel_ok rank fuel history -> (rank r < fuel)%nat ->
+    let st := final_state prog filters raw appf imgc oc sc fuel history init in
+    fst (get (cfg_fixed oc sc) prog fuel [] ty r (set_oc st r0 (EErr k))) = D prog rank ty r.
+Check C12_value_entries_typed :
+  forall (prog : tytag -> ref -> comp) (filters : ref -> list filt) (raw : ref -> outcome)
+         (appf : filt -> val -> outcome) (imgc : ref -> filt -> val -> outcome)
+         (rank : ref -> nat) (oc sc : bool) (fuel : nat) (history : list call) (ty ty0 : tytag) (r r0 : ref) (v0 : val),
+    acyclic prog rank -> fuel_ok rank fuel history -> (rank r < fuel)%nat ->
+    D prog rank ty0 r0 = Ok v0 ->
+    let st := final_state prog filters raw appf imgc oc sc fuel history init in
+    fst (get (cfg_fixed oc sc) prog fuel [] ty r (set_oc st r0 (EOk ty0 v0))) = D prog rank ty r.
+Check C12_stream_entries_full :
+  forall (prog : tytag -> ref -> comp) (filters : ref -> list filt) (raw : ref -> outcome)
+         (appf : filt -> val -> outcome) (imgc : ref -> filt -> val -> outcome)
+         (rank : ref -> nat) (oc sc : bool) (fuel : nat) (history : list call) (r : ref) (x : outcome),
+    acyclic prog rank -> fuel_ok rank fuel history ->
+    let st := final_state prog filters raw appf imgc oc sc fuel history init in
+    lookup r (scache st) = Some x -> x = sdecode raw appf r (filters r).
+Check C12_partial_decode :
+  forall (prog : tytag -> ref -> comp) (filters : ref -> list filt) (raw : ref -> outcome)
+         (appf : filt -> val -> outcome) (imgc : ref -> filt -> val -> outcome)
+         (rank : ref -> nat) (oc sc : bool) (fuel : nat) (history : list call) (r : ref),
+    acyclic prog rank -> fuel_ok rank fuel history ->
+    let st := final_state prog filters raw appf imgc oc sc fuel history init in
+    fst (raw_image_data (cfg_fixed oc sc) filters raw appf r st) = raw_image_pure filters raw appf r /\
+    (skipn (match rposition is_image_filter (filters r) with Some i => i | None => length (filters r) end)
+           (filters r) <> [] ->
+     snd (raw_image_data (cfg_fixed oc sc) filters raw appf r st) = st).
+Check (eq_refl : final_state = fun prog filters raw appf imgc oc sc =>
+  fix final_state (fuel : nat) (calls : list call) (st : state) {struct calls} : state :=
+    match calls with
+    | [] => st
+    | cl :: t => final_state fuel t (snd (do_call (cfg_fixed oc sc) prog filters raw appf imgc fuel cl st))
+    end).
+Check C12_serving_cached_errors_refuted : forall (serve : N -> bool) (k : N),
+  serve k = true ->
+  exists (prog : tytag -> ref -> comp) (rank : ref -> nat) (fuel : nat) (ty1 ty2 : tytag) (r : ref),
+    acyclic prog rank /\
+    let first := get_gen (cfg_fixed true true) prog serve fuel [] ty1 r init in
+    fst (get_gen (cfg_fixed true true) prog serve fuel [] ty2 r (snd first))
+    <> fst (get no_cache prog fuel [] ty2 r init).
+Check (eq_refl : get = fun c prog => get_gen c prog (fun _ => negb (fix_b c))).
